@@ -19,6 +19,18 @@ def assert_site(what):
     return w.replace("/repo/symengine/", "")[:120]
 
 
+def symbolic_identity_below(t):
+    """recipe contains an IdentityMatrix leaf of symbolic size"""
+    h = t[0]
+    if h == "I":
+        return not isinstance(t[1], int)
+    if h in ("add", "had", "mul"):
+        return any(symbolic_identity_below(k) for k in t[1])
+    if h in ("T", "C", "tr"):
+        return symbolic_identity_below(t[1])
+    return False
+
+
 def show(v):
     if isinstance(v, Mat):
         return "%dx%d %s" % (v.r, v.c, v.show())
@@ -195,6 +207,13 @@ class C26(Check):
         stmts = []
         for tree in case["trees"]:
             nodes = mx.model(mx.flatten(tree))
+            if any(n.t[0] == "mul" and n.mismatch not in (None, "below") and symbolic_identity_below(n.t)
+                   for n in nodes):
+                # known finding: matrix_mul validates adjacent factors only, lets an identity of symbolic size
+                # pass, drops it and then multiplies the now adjacent, mismatching dense/diagonal factors
+                # (heap-buffer-overflow in mul_dense_dense & co).  Not run at all.
+                self.skip("known:mul_symbolic_identity_mismatch")
+                continue
             reg = {}
             for n in nodes:
                 reg[n.idx] = len(stmts)
